@@ -637,6 +637,44 @@ def mode_blocked(data):
     t.join(TIMEOUT)
     if bad:
         out["mismatches"].append({"depth": 1, "managers": 1, "mode": "context analysis fails", "bad": bad})
+    # the inspected thread IMPORTS a module while the extraction is scanning sys.modules for glue (a lazy import in the
+    # target: the interleaving is forced through a module's own glue function, which runs in the middle of that scan)
+    go, done, park = threading.Event(), threading.Event(), threading.Event()
+
+    def importer():
+        go.wait(TIMEOUT)
+        sys.modules["verif_zz_late"] = types.ModuleType("verif_zz_late")
+        done.set()
+        park.wait(TIMEOUT)
+    t = threading.Thread(target=importer, daemon=True)
+    t.start()
+    time.sleep(0.01)
+    mod = types.ModuleType("verif_zz_glue")
+
+    def glue():
+        go.set()
+        done.wait(TIMEOUT)
+    mod._stackscope_install_glue_ = glue
+    sys.modules["verif_zz_glue"] = mod
+    bad = []
+    try:
+        with warnings.catch_warnings(record=True):
+            warnings.simplefilter("always")
+            st = stackscope.extract(t)
+        out["n"] += 1
+        if "importer" not in [f.funcname for f in st.frames] or st.error is not None:
+            bad.append("the thread imports a module during the glue scan: frames %s error %r" % ([f.funcname for f in st.frames], st.error))
+        if not done.is_set():
+            bad.append("harness: the glue function did not run during this extraction")
+    except BaseException as ex:
+        bad.append("the thread imports a module during the glue scan: extract(thread) raised %r" % (ex,))
+    finally:
+        park.set()
+        t.join(TIMEOUT)
+        sys.modules.pop("verif_zz_glue", None)
+        sys.modules.pop("verif_zz_late", None)
+    if bad:
+        out["mismatches"].append({"depth": 1, "managers": 0, "mode": "importing target", "bad": bad})
     return out
 
 
